@@ -109,6 +109,7 @@ PROPS.update({
         "modules": _DISPATCH_MODS,
         "contracts": ["Pyro5.svr_threads.ClientConnectionJob.__call__", "Pyro5.svr_multiplex.SocketServer_Multiplex.handleRequest",
                       "Pyro5.svr_multiplex.SocketServer_Multiplex._handleConnection", "Pyro5.socketutil.SocketConnection.close#body", _HR],
+        "lemmas": ["C13:tracked-resources-frame"],
         "groups": [{"modules": ["specs.socket_model", "specs.pystruct", "specs.seqdict", "specs.opaque", "specs.daemon_model", "contracts.server_loops"],
                     "contracts": ["Pyro5.svr_multiplex.SocketServer_Multiplex.events"]},
                    {"modules": ["specs.socket_model", "specs.pystruct", "specs.seqdict", "specs.opaque", "specs.daemon_model", "specs.stream_model", "contracts.streams"],
@@ -217,8 +218,10 @@ PROPS.update({
                       "Pyro5.socketutil.SocketConnection.recv", "Pyro5.socketutil.SocketConnection.send"],
         "groups": [{"modules": ["specs.socket_model", "specs.pystruct", "specs.seqdict", "specs.opaque", "specs.daemon_model", "contracts.socketutil", "contracts.protocol",
                                 "contracts.server_handshake", "contracts.servers", "contracts.client_invoke", "contracts.client_connect"],
-                    "contracts": ["Pyro5.client.Proxy.__pyroCreateConnection#body"]}],
-        "harness": ["replay/c03.py", "replay/dispatch.py"],
+                    "contracts": ["Pyro5.client.Proxy.__pyroCreateConnection#body"]},
+                   {"modules": ["specs.socket_model", "specs.pystruct", "specs.seqdict", "specs.opaque", "specs.daemon_model", "specs.stream_model", "contracts.streams"],
+                    "contracts": ["Pyro5.client._StreamResultIterator.__next__", "Pyro5.client._StreamResultIterator.close"]}],
+        "harness": ["replay/c03.py", "replay/dispatch.py", "replay/c10.py"],
         "explanation": "client side (_pyroInvoke): at most one request per call, carrying the 16-bit incremented sequence number; a call that returns has consumed "
                        "exactly one whole RESULT message whose sequence number equals the request's and whose serializer matches, never returns a reply flagged as "
                        "exception as a value; oneway returns None without reading; a communication error or KeyboardInterrupt after the request went out always "
@@ -229,7 +232,8 @@ PROPS.update({
                        "Proxy.__pyroCreateConnection (the base case of the per-proxy invariant): after ANY exit the proxy either holds no connection, or the connection made during this call on which "
                        "exactly one CONNECT message (this proxy's sequence number, the context's annotations) went out and exactly one whole reply, a CONNECTOK, was consumed - a refused, "
                        "malformed or cut-off handshake never leaves a connection behind; an already connected proxy causes no traffic; a nested re-issue of a call (_pyroInvoke calling "
-                       "itself) counts as a second request.",
+                       "itself) counts as a second request.  Third contract group (shared with C10): a fetch of the next item of a streamed result is ONE get_next_stream_item call for the "
+                       "iterator's own stream id whose result (or exception) is handed on unchanged - never re-issued behind the caller's back.",
         "assumptions": _COMMON_ASSUME + ["delivery semantics of real TCP, forged matching sequence numbers",
                                          "the induction over the call history of one proxy (aligned and nothing outstanding, or no connection) is a pencil composition of the per-call contracts",
                                          "_pyroInvoke uses Proxy.__pyroCreateConnection through a declared call-site contract (a fresh message-aligned connection, or an exception leaving no connection or a fully "
@@ -241,11 +245,13 @@ PROPS.update({
         "contracts": ["Pyro5.nameserver.NameServer.count", "Pyro5.nameserver.NameServer.lookup", "Pyro5.nameserver.NameServer.register",
                       "Pyro5.nameserver.NameServer.set_metadata", "Pyro5.nameserver.NameServer.remove", "Pyro5.nameserver.NameServer.list",
                       "Pyro5.nameserver.NameServer.yplookup"],
+        "lemmas": ["C15:storage-frame"],
         "harness": "replay/c15.py",
         "explanation": "monitor discipline of the seven public NameServer operations: every storage access (contains, getitem, setitem, delitem, len, iteration, "
                        "optimized queries, everything, remove_items) is made while holding self.lock (M1, ghost lock depth on every path incl. exceptional ones), all "
                        "accesses of one operation lie in ONE outermost critical section (M3; nested operations such as remove->list re-enter the held RLock), the lock is "
-                       "released on every exit.  With mutual exclusion this makes every operation atomic for every interleaving and any number of clients.",
+                       "released on every exit.  With mutual exclusion this makes every operation atomic for every interleaving and any number of clients.  Lemma storage-frame (syntactic): "
+                       "nothing but these seven operations, the constructor and the closing of the name server daemon touches the storage.",
         "assumptions": ["threading.RLock provides mutual exclusion; each single storage method is atomic (dict operation under the GIL / one sqlite transaction)",
                         "the step from M1+M3 to linearizability is the standard monitor argument (DESIGN 2.5), not machine checked",
                         "the storage is the abstract interface Sigma of specs/storage_model.py"],
@@ -366,6 +372,7 @@ PROPS.update({
                       "Pyro5.server.Daemon._clientDisconnect#streams", "Pyro5.server.Daemon._housekeeping#streams",
                       "Pyro5.client._StreamResultIterator.__next__", "Pyro5.client._StreamResultIterator.close"],
         "lemmas": ["C10:stream-table-frame"],
+        "groups": [{"modules": _DISPATCH_MODS, "contracts": [_HR]}],
         "harness": ["replay/c10.py", "replay/c10_sched.py"],
         "explanation": "per-operation contracts over the stream table T : id -> (owner, created, linger start, iterator), stated for one arbitrary id (free constant = "
                        "every id): registration adds exactly one entry (this connection, now, not lingering, the iterator) or nothing; get_next_stream_item returns "
@@ -377,15 +384,18 @@ PROPS.update({
                        "began; the client iterator makes exactly one get_next_stream_item call per item for its own id, returns that call's result, ends (sticky "
                        "StopIteration) exactly when the call raised StopIteration/GeneratorExit and stays open on any other error, close() sends at most one oneway "
                        "close_stream and uses its own proxy only while in sequence.  End-to-end sequences (items at the client = the server iterator's items) follow "
-                       "from these per-call contracts plus C03 by induction on the number of fetches; that induction is argued in DESIGN.md, not machine-checked.",
+                       "from these per-call contracts plus C03 by induction on the number of fetches; that induction is argued in DESIGN.md, not machine-checked.  Second contract group (the stream branch of Daemon.handleRequest): an item-stream announcement (error reply "
+                       "flagged ITEMSTREAMRESULT) is sent only after _streamResponse reported a stream for this request's result, it names exactly the registered stream id (one annotation "
+                       "STRM = the id, encoded; none when streaming is disabled), and a result that became a stream is never also sent as an ordinary reply.  Lemma stream-table-frame: the table "
+                       "is written only by the functions under contract, the constructor and close() / shutdown().",
         "assumptions": ["the deductive contracts are sequential: two workers / the housekeeper touching the stream table at the same time are not covered by them (the code has no common lock); "
                         "the bounded schedule harness replay/c10_sched.py interleaves PAIRS of table operations at bytecode granularity (strict alternation, and 'one thread runs k instructions, then the other') - "
                         "it found the check-then-delete races repaired by fix 9cbc9cc and the listed finding C10-disconnect-resurrects-closed-stream",
                         "next(it) on a server-side iterator = ghost sequence (item(it, pos), pos+1) or any Exception subclass at its end; generators raising "
                         "BaseException subclasses that are not Exceptions are outside the model; time.time() is a non-decreasing positive real",
                         "uuid4 ids are assumed not to collide with ids in the table (the frame condition for other streams is conditional on that)",
-                        "Proxy._pyroInvoke by its call-site interface (any result or any exception class); Proxy.__copy__/__enter__/__exit__ as declared; the stream branch "
-                        "of Daemon.handleRequest / Proxy._pyroInvoke (STRM annotation, ITEMSTREAMRESULT flag) is exercised by the bounded harness only",
+                        "Proxy._pyroInvoke by its call-site interface (any result or any exception class); Proxy.__copy__/__enter__/__exit__ as declared; the client half "
+                        "of the stream announcement (Proxy._pyroInvoke turning the STRM annotation of an ITEMSTREAMRESULT reply into a _StreamResultIterator) is exercised by the bounded harness only",
                         "expiry is decided at the housekeeping step following it (an expired, not yet housekept stream may still answer)"],
     },
     "C14": {
